@@ -36,7 +36,8 @@ Definition ofk_eqb (a b : option fk) : bool :=
 Definition oN_eqb (a b : option N) : bool :=
   match a, b with Some x, Some y => x =? y | None, None => true | _, _ => false end.
 Definition vold_eqb (a b : vold) : bool :=
-  Bool.eqb (d_ro a) (d_ro b) && Bool.eqb (d_dir a) (d_dir b) && ofk_eqb (d_blk a) (d_blk b) && oN_eqb (d_tmp a) (d_tmp b).
+  Bool.eqb (d_ro a) (d_ro b) && Bool.eqb (d_dir a) (d_dir b) && ofk_eqb (d_blk a) (d_blk b) && oN_eqb (d_tmp a) (d_tmp b) &&
+  Bool.eqb (d_full a) (d_full b).
 Fixpoint vols_eqb (a b : list vold) : bool :=
   match a, b with
   | [], [] => true
@@ -103,4 +104,5 @@ Fixpoint failing_from (i : N) (cs : list case) : list (N * N) :=
   end.
 Definition failing (cs : list case) : list (N * N) := failing_from 0 cs.
 
-Definition D (ro dir : bool) (b : option fk) (t : option N) : vold := {| d_ro := ro; d_dir := dir; d_blk := b; d_tmp := t |}.
+Definition D (ro dir : bool) (b : option fk) (t : option N) : vold := {| d_ro := ro; d_dir := dir; d_blk := b; d_tmp := t; d_full := false |}.
+Definition DF (ro dir : bool) (b : option fk) (t : option N) : vold := {| d_ro := ro; d_dir := dir; d_blk := b; d_tmp := t; d_full := true |}.
